@@ -169,6 +169,26 @@ class Client(ModelObj):
             return ("val", w.call_method(it, "ActorRef", "is_alive", [self.ref(op[1])]))
         if k == "weak_is_alive":
             return ("val", w.call_method(it, "ActorWeak", "is_alive", [Ref(self.weak[op[1]], (), False)]))
+        if k == "weak_routes":
+            # ActorWeak::upgrade().is_some() directly and through every erased weak handle
+            a = op[1]
+            wkc = self.weak[a]
+            from .builtins_std import pick_impl
+            res = []
+            up = w.call_method(it, "ActorWeak", "upgrade", [Ref(wkc, (), False)])
+            res.append(up.variant == "Some")
+            if up.variant == "Some":
+                it.drop_value(up.fields[0])
+            for tr_ in ("WeakTellHandler", "WeakAskHandler", "WeakActorControl"):
+                name = pick_impl(w, it, "From", "from", [Ref(wkc, (), False)], tr_)
+                h = it.call_body(w.prog.bodies[name], [Ref(wkc, (), False)])
+                u = w.call(it, "<dyn %s as %s>::upgrade" % (tr_, tr_), [Ref(h.cell, (), False)], None)
+                res.append(u.variant == "Some")
+                if u.variant == "Some":
+                    it.drop_value(u.fields[0])
+                alive = w.call(it, "<dyn %s as %s>::is_alive" % (tr_, tr_), [Ref(h.cell, (), False)], None) if tr_ == "WeakActorControl" else None
+                it.drop_value(h)
+            return ("val", Agg("array", "", res))
         if k == "identities":
             # identity() through every kind of handle derived from this client's reference
             a = op[1]
